@@ -454,7 +454,7 @@ class BindStateBase:
         The expected event is defined by the State's sent_cmd, rcvd_msg methods.
         """
         try:
-            await asyncio.wait_for(self._fut, timeout)
+            await asyncio.wait_for(asyncio.shield(self._fut), timeout)  # dont cancel fut
         except TimeoutError:
             self._handle_wait_timer_expired(timeout)
         else:
